@@ -1,9 +1,13 @@
 package sim
 
+import "os"
+
 // Choice source: one PRNG stream seeded from VERIF_SEED decides everything. Every decision
 // is recorded as (kind, n, picked); a recorded trace can be replayed, and a replayed trace may be
 // mutated by the minimiser (values past the end, or out of range, fall back to 0 which is always
 // the benign default: no fault, continue the current task, FIFO delivery).
+
+var debugChoices = os.Getenv("VERIF_DEBUG_CHOICES") != ""
 
 type Choice struct {
 	K string `json:"k"`
@@ -59,6 +63,9 @@ func (c *Chooser) Pick(kind string, n int) int {
 	}
 	c.Trace = append(c.Trace, Choice{kind, n, v})
 	c.Counts[kind]++
+	if debugChoices {
+		println("CHOICE", len(c.Trace), kind, n, v)
+	}
 	return v
 }
 
